@@ -306,15 +306,24 @@ def judge(ctx, done):
             bad.setdefault(cause, []).append((r, o, v))
     for cause, items in sorted(bad.items()):
         items.sort(key=lambda x: (len(x[0]["case"]["kinds"]), case_key(x[0]["case"])))
+        # one defect, one signature: the stage kinds that every failing run of this cause contains; if there is
+        # none, the shortest failing stage sequences are the roots and longer ones are attributed to them
+        common = None
+        for r, o, v in items:
+            ks = {k for k in r["case"]["kinds"] if not k.startswith("source")}
+            common = ks if common is None else common & ks
         roots = []
         for r, o, v in items:
             c = r["case"]
             kinds = c["kinds"]
-            root = next((k for k in roots if subseq(k, kinds)), None)
-            if root is None:
-                roots.append(kinds)
-                root = kinds
-            shape = ">".join(root)
+            if common:
+                shape = "+".join(sorted(common))
+            else:
+                root = next((k for k in roots if subseq(k, kinds)), None)
+                if root is None:
+                    roots.append(kinds)
+                    root = kinds
+                shape = ">".join(root)
             if cause == "goroutines-not-released":
                 fn = (o["leak_grip"] or [{"fn": "?", "state": "?"}])[0]
                 sig = "pipeline goroutines not released: %s [%s]" % (fn["fn"], fn["state"])
@@ -323,8 +332,9 @@ def judge(ctx, done):
                 sig = "pipeline temp store not released: %s" % shape
                 what = "the engine's work directory still holds temporary stores after the run"
             elif cause == "source-not-stopped":
-                sig = "pipeline %s ignored: %s scan ran to completion" % ("client cancel" if r["cancel"] >= 0 else "limit", kinds[0])
-                what = "the source scan handed out all %d elements although only ~%d were needed and %d fit in flight" % (c["src"], v["stopneed"], v["inflight"])
+                sig = "pipeline cancel ignored: %s scan ran to completion" % kinds[0]
+                what = "after %s the source scan still handed out all %d elements although only ~%d were needed and at most %d fit in flight" % (
+                    "the client's cancel" if r["cancel"] >= 0 else "a satisfied limit/range", c["src"], v["stopneed"], v["inflight"])
             elif cause == "rows-too-few":
                 sig = "pipeline rows lost: %s" % shape
                 what = "the result stream was closed (no cancel) with fewer rows than the steps yield"
